@@ -769,9 +769,9 @@ def compose(repo: Repo, chk: Check) -> None:
 NONLIN = ("FloorDiv", "CeilDiv", "Mod")
 
 
-def transform_linear(repo: Repo, chk: Check) -> None:
+def transform_linear(repo: Repo, chk: Check, rule: str = "C19.transform-linear") -> None:
     chk.rule(
-        "C19.transform-linear",
+        rule,
         "AffineTransform.from_affine_map (matrix form = unit responses) refuses every map that contains a floordiv / ceildiv / mod ANYWHERE in a "
         "result: the test visits all sub-expressions (dfs, or a recursion that descends into both operands of every binary node it accepts)",
         floor=1,
@@ -790,7 +790,7 @@ def transform_linear(repo: Repo, chk: Check) -> None:
         full = any(norm.match(T("$r.dfs()"), l.iter) is not None or norm.match(T("$r.walk()"), l.iter) is not None for l in loops)
         kinds_ok = all(any(k in t for t in s_.fact_texts) for k in NONLIN)
         if over_results and full and kinds_ok:
-            chk.ok("C19.transform-linear", f"{key}:complete-traversal", s_.where(), "every sub-expression of every result is visited; FloorDiv, CeilDiv and Mod raise")
+            chk.ok(rule, f"{key}:complete-traversal", s_.where(), "every sub-expression of every result is visited; FloorDiv, CeilDiv and Mod raise")
             return
         # the same as one condition: `if any(<non-linear kind>(e) for e in result.dfs()): raise`
         for fa in s_.facts:
@@ -800,14 +800,14 @@ def transform_linear(repo: Repo, chk: Check) -> None:
             dom_full = norm.match(T("$r.dfs()"), q[2]) is not None or norm.match(T("$r.walk()"), q[2]) is not None
             txt = ast.unparse(q[4]) + " ".join(ast.unparse(x) for x in q[3])
             if over_results and dom_full and all(k in txt for k in NONLIN) and not any(isinstance(n, ast.UnaryOp) and isinstance(n.op, ast.Not) for n in ast.walk(q[4])):
-                chk.ok("C19.transform-linear", f"{key}:complete-traversal", s_.where(), "every sub-expression of every result is visited; FloorDiv, CeilDiv and Mod raise")
+                chk.ok(rule, f"{key}:complete-traversal", s_.where(), "every sub-expression of every result is visited; FloorDiv, CeilDiv and Mod raise")
                 return
     # form (b): a recursive predicate
     helpers = [n for n in f.node.body if isinstance(n, ast.FunctionDef)]
     rec = [h for h in helpers if any(isinstance(c, ast.Call) and isinstance(c.func, ast.Name) and c.func.id == h.name for c in ast.walk(h))]
     used = [h for h in rec if any(isinstance(c, ast.Call) and isinstance(c.func, ast.Name) and c.func.id == h.name for st in f.node.body if st is not h for c in ast.walk(st))]
     if not used:
-        chk.bad("C19.transform-linear", f"{key}:complete-traversal", f.where,
+        chk.bad(rule, f"{key}:complete-traversal", f.where,
                 "no complete traversal of the result expressions guards the conversion: a floordiv/mod nested in a result is linearised silently")
         return
     h = used[0]
@@ -830,6 +830,6 @@ def transform_linear(repo: Repo, chk: Check) -> None:
         if not ({f"{ep}.lhs", f"{ep}.rhs"} <= sides):
             problems.append(f"line {r.node.lineno}: `return {ast.unparse(v)[:80]}` accepts a binary node without checking " + " and ".join(sorted({f"{ep}.lhs", f"{ep}.rhs"} - sides)))
     rejects = all(any(k in ast.unparse(hf.node) for k in ("Add", "Mul")) for _ in [0])
-    chk.result(not problems, "C19.transform-linear", f"{key}:complete-traversal", hf.where,
+    chk.result(not problems, rule, f"{key}:complete-traversal", hf.where,
                f"{h.name} descends into both operands of every binary node it accepts",
                f"{h.name} does not visit every sub-expression ({'; '.join(problems[:2])}): a floordiv/mod below such a node is accepted and the map is linearised silently")
